@@ -493,6 +493,35 @@ class Unary:
         return x[...]
 
 
+@op('ctor_shape_of', 1.5)
+class CtorShapeOf:
+    """TT(dense, shape=x.shape): a new object built with the *shape attribute* of a live object as its shape argument
+    (the natural way to say 'same shape as x')."""
+    @staticmethod
+    def pick(rng, S):
+        c = S.objs(lambda a: dense_numel(a) <= 5000 and hasattr(a, 'shape'))
+        if not c:
+            return None
+        x = rng.choice(c)
+        return [x.sid], {'vseed': rng.getrandbits(31), 'src': rng.choice(['torch', 'numpy']), 'eps': rng.choice([1e-12, 1e-4]),
+                         'via': rng.choice(['shape', 'shape', 'N'])}
+
+    @staticmethod
+    def run(S, objs, p):
+        x = objs[0]
+        g = gen.vgen(p['vseed'])
+        N = gen.ints(x.N)
+        if x.is_ttm:
+            M = gen.ints(x.M)
+            dense = gen.randn(M + N, dtn(x), g)
+        else:
+            dense = gen.randn(N, dtn(x), g)
+        if p['src'] == 'numpy':
+            dense = dense.numpy()
+        shp = x.shape if (p['via'] == 'shape' or x.is_ttm) else x.N
+        return TT(dense, shp, eps=p['eps'])
+
+
 @op('to', 1.0)
 class To:
     @staticmethod
